@@ -1114,7 +1114,15 @@ func runC19(cfg Config, r *Result) {
 		c19CaseSX(x.L, rep.Input, model, r)
 		return
 	}
-	for _, c := range c19Corpus {
+	corpus := append([]string{}, c19Corpus...)
+	if b, err := os.ReadFile(filepath.Join(os.Getenv("VERIF_ROOT"), "corpus", "C19", "witnesses.sx")); err == nil {
+		for _, l := range strings.Split(string(b), "\n") {
+			if strings.TrimSpace(l) != "" {
+				corpus = append(corpus, l)
+			}
+		}
+	}
+	for _, c := range corpus {
 		x, err := ParseSX(c)
 		if err != nil {
 			r.Violate(Violation{Kind: "correspondence", Key: "corpus-unreadable", Detail: err.Error() + ": " + c})
@@ -1123,7 +1131,7 @@ func runC19(cfg Config, r *Result) {
 		c19CaseSX(x.L, c19Input{Case: c, Mode: "api"}, model, r)
 	}
 	maxLen := cfg.N(15, 60)
-	nAPI := cfg.N(800, 30000)
+	nAPI := cfg.N(800, 8000)
 	for i := 0; i < nAPI; i++ {
 		n := 1 + cfg.Rng.Intn(maxLen)
 		if i%10 == 0 {
@@ -1135,12 +1143,12 @@ func runC19(cfg Config, r *Result) {
 		r.Violate(Violation{Kind: "correspondence", Key: "evy-binary", Detail: err.Error()})
 		return
 	}
-	nBin := cfg.N(40, 1200)
+	nBin := cfg.N(40, 300)
 	for i := 0; i < nBin; i++ {
 		c19Case(genHistory(cfg.Rng, 1+cfg.Rng.Intn(maxLen), false, false), "binary", model, r)
 	}
 	c19Rejected(model, r)
-	nHang := cfg.N(3, 12)
+	nHang := cfg.N(3, 8)
 	if c19UseFixed() {
 		nHang = 0 // with the gridn fix the call is rejected; covered by the rejected-call cases
 	}
